@@ -309,7 +309,7 @@ func checkC10(c *Ctx) {
 
 // metaFlagOf: the flag a freshly obtained meta value is known to carry (GetMeta(_, const)), or 0.
 func metaFlagOf(v ssa.Value, fieldC, tagC int64) int {
-	if call, ok := v.(*ssa.Call); ok && call.Call.StaticCallee() != nil && call.Call.StaticCallee().Name() == "GetMeta" {
+	if call, ok := v.(*ssa.Call); ok && call.Call.StaticCallee() != nil && fnName(call.Call.StaticCallee()) == "GetMeta" {
 		if k, ok := constInt(call.Call.Args[1]); ok {
 			switch k {
 			case fieldC:
@@ -457,7 +457,7 @@ func c10Coherence(c *Ctx, f *ssa.Function, fieldC, tagC int64, entry uint16) map
 			}
 		}
 		allInstrs(f, func(i2 ssa.Instruction) {
-			if call, isC := i2.(*ssa.Call); isC && call.Call.StaticCallee() != nil && call.Call.StaticCallee().Name() == "Delete" &&
+			if call, isC := i2.(*ssa.Call); isC && call.Call.StaticCallee() != nil && fnName(call.Call.StaticCallee()) == "Delete" &&
 				len(call.Call.Args) == 2 && namedOf(call.Call.Args[0].Type()) == "input.Point" && call.Call.Args[1] == mu.Key && precedes(call, mu) {
 				why = "Point.Delete(k) precedes it on every path"
 			}
